@@ -243,22 +243,19 @@ def scale_from_world(old_world, new_name: str = None, mass_scale: float = None, 
 
     # Change layer radius
     scaled_config['radius'] = radius_scale * old_world.config['radius']
-    prev_layer_radius = 0.
     for layer_name, layer_dict in old_world.config['layers'].items():
 
-        # A layer's geometry may have been configured by its thickness alone; use the layer's actual radius.
-        old_radius = layer_dict.get('radius', None)
-        if old_radius is None:
-            old_radius = old_world.layers_by_name[layer_name].radius
-        scaled_config['layers'][layer_name]['radius'] = radius_scale * old_radius
-        scaled_config['layers'][layer_name]['radius_inner'] = prev_layer_radius
+        # Scale the lengths that the layer's configuration prescribes (its radius, its thickness, or both). Lengths that
+        #    follow from them are not written into the new configuration: the world builder derives them again, and a
+        #    stored copy would contradict a later change to the prescribed ones (e.g., `build_from_world` with a new
+        #    layer radius).
+        scaled_layer_dict = scaled_config['layers'][layer_name]
+        for length_key in ('radius', 'thickness'):
+            if layer_dict.get(length_key, None) is not None:
+                scaled_layer_dict[length_key] = radius_scale * layer_dict[length_key]
 
-        # Use this layer's upper radius as the next layer's lower radius
-        prev_layer_radius = scaled_config['layers'][layer_name]['radius']
-
-        # Update other items
-        scaled_config['layers'][layer_name]['thickness'] = scaled_config['layers'][layer_name]['radius'] - \
-                                                           scaled_config['layers'][layer_name]['radius_inner']
+        # Configurations made by earlier versions of this function carry a derived inner radius.
+        scaled_layer_dict.pop('radius_inner', None)
 
     # Give it an identifiable name
     if new_name is None:
